@@ -810,7 +810,7 @@ func genC02(r *rand.Rand, tier string) []Case {
 	for i := 0; i < (n+3)/4; i++ {
 		cases = append(cases, genTinyCrashCase(r, false, 0), genTinyCrashCase(r, false, 0))
 	}
-	cases = append(cases, genHotKeyCrashCase(r, false), genShrinkCrashCase(r, 0), genDeleteTailCrashCase(r, false))
+	cases = append(cases, genHotKeyCrashCase(r, false), genShrinkCrashCase(r, 0), genDeleteTailCrashCase(r, false), genBigRecordSyncCase(r), genScratchCrashCase(r, false))
 	return cases
 }
 
@@ -855,6 +855,54 @@ func genDeleteTailCrashCase(r *rand.Rand, rejected bool) *c02Case {
 	return c
 }
 
+// the synchronous log with one record larger than its 4 MiB write buffer: the record reaches the file in two write
+// system calls, a kill between them leaves a record cut inside its payload at the end of the newest log file
+func genBigRecordSyncCase(r *rand.Rand) *c02Case {
+	keys := [][]byte{[]byte("a"), []byte("b"), []byte("c")}
+	c := &c02Case{Keys: keys, NoAbs: true}
+	c.Opts = dbOpts{MemstoreBytes: 1 << 30, Threshold: 10, MaxSize: 5 << 30, RatioPct: 100, WBuf: 4096, RBuf: 4096}
+	huge := make([]byte, 4<<20+200000+r.Intn(1000))
+	r.Read(huge)
+	c.Steps = append(c.Steps, dbStep{Op: "put", K: keys[0], V: []byte("before")}, dbStep{Op: "put", K: keys[1], V: huge},
+		dbStep{Op: "put", K: keys[2], V: []byte("after")}, dbStep{Op: "del", K: keys[0]})
+	return c
+}
+
+// the asynchronous log through direct I/O: block-aligned flushes of the 4 MiB buffer, zero padding at the end of every
+// segment. One generation logs more than the buffer (so the buffer is reused), then rotations close the segments
+func genDirectAsyncCase(r *rand.Rand) *c02Case {
+	keys := [][]byte{[]byte("a"), []byte("b"), []byte("c"), []byte("d")}
+	c := &c02Case{Keys: keys, NoAbs: true}
+	c.Opts = dbOpts{MemstoreBytes: 1 << 30, Threshold: 10, MaxSize: 5 << 30, RatioPct: 100, WBuf: 4096, RBuf: 4096, AsyncWAL: true, DirectIOWAL: true}
+	for j := 0; j < 38+r.Intn(6); j++ {
+		v := make([]byte, 110000+r.Intn(20000))
+		r.Read(v)
+		c.Steps = append(c.Steps, dbStep{Op: "put", K: keys[j%3], V: v})
+	}
+	c.Steps = append(c.Steps, dbStep{Op: "put", K: keys[3], V: []byte("small-1")}, dbStep{Op: "rotate"},
+		dbStep{Op: "put", K: keys[0], V: []byte("small-2")}, dbStep{Op: "del", K: keys[1]}, dbStep{Op: "rotate"}, dbStep{Op: "put", K: keys[3], V: []byte("small-3")})
+	return c
+}
+
+// a caller that keeps one value buffer per key and refills it for every PutBytes of that key (values of equal length):
+// every such put is a write of its own and has to be logged
+func genScratchCrashCase(r *rand.Rand, async bool) *c02Case {
+	keys := [][]byte{[]byte("a"), []byte("b")}
+	c := &c02Case{Keys: keys}
+	c.Opts = dbOpts{MemstoreBytes: 1 << 30, Threshold: 10, MaxSize: 5 << 30, RatioPct: 100, WBuf: 4096, RBuf: 4096, AsyncWAL: async}
+	n := 0
+	for round := 0; round < 3; round++ {
+		for j := 0; j < 3+r.Intn(3); j++ {
+			n++
+			c.Steps = append(c.Steps, dbStep{Op: "putb", K: keys[r.Intn(2)], V: []byte(fmt.Sprintf("val-%04d", n)), Scratch: true})
+		}
+		if round < 2 {
+			c.Steps = append(c.Steps, dbStep{Op: "rotate"})
+		}
+	}
+	return c
+}
+
 func genC13(r *rand.Rand, tier string) []Case {
 	n := 4
 	if tier == "thorough" {
@@ -864,7 +912,10 @@ func genC13(r *rand.Rand, tier string) []Case {
 	for i := 0; i < n; i++ {
 		cases = append(cases, genCrashCase(r, true, 0, 8+r.Intn(12), i == 0))
 	}
-	cases = append(cases, genTinyCrashCase(r, true, 0), genTinyCrashCase(r, true, 0), genHotKeyCrashCase(r, true), genBigGenerationCase(r))
+	cases = append(cases, genTinyCrashCase(r, true, 0), genTinyCrashCase(r, true, 0), genHotKeyCrashCase(r, true), genBigGenerationCase(r), genScratchCrashCase(r, true))
+	if dioAvailable {
+		cases = append(cases, genDirectAsyncCase(r))
+	}
 	return cases
 }
 
